@@ -74,6 +74,24 @@ def build(scratch, pkg, race=False, extra_tags=""):
     return out
 
 
+def build_conformance_tools(scratch, repo_dir, env):
+    """Build the two Go conformance tools from the working tree into <scratch>/tools (workspace mode, no -mod flag)."""
+    out = os.path.join(scratch, "tools")
+    os.makedirs(out, exist_ok=True)
+    e = dict(env)
+    e.pop("GOFLAGS", None)
+    for tool in ("test-read-conformance", "test-write-conformance"):
+        p = subprocess.run(["go", "build", "-o", os.path.join(out, tool), "."], cwd=os.path.join(repo_dir, "go", "conformance", tool),
+                           env=e, stdout=subprocess.PIPE, stderr=subprocess.STDOUT, text=True)
+        if p.returncode != 0:
+            print("HARNESS-ERROR: cannot build %s:\n%s" % (tool, p.stdout[-3000:]))
+            return False
+    return True
+
+
+PREBUILD = {"conformance_tools": build_conformance_tools}
+
+
 def load_findings():
     p = os.path.join(VERIF, "known_findings.json")
     try:
@@ -93,7 +111,7 @@ def run_shards(binary, spec, pid, tier, seed, scratch, replay=None, part_index=0
         e = env_base()
         e.update({"VERIF_OUT": outdir, "VERIF_SHARD": str(sh + 100 * part_index), "VERIF_SHARD_INDEX": str(sh), "VERIF_SHARDS": str(shards), "VERIF_TIER": tier,
                   "VERIF_SEED": str(seed), "VERIF_KF": os.path.join(VERIF, "known_findings.json"),
-                  "VERIF_REPO": repo(), "VERIF_DIR": VERIF, "VERIF_SCRATCH_DIR": scratch,
+                  "VERIF_REPO": repo(), "VERIF_DIR": VERIF, "VERIF_SCRATCH_DIR": scratch, "VERIF_TOOLS_DIR": os.path.join(scratch, "tools"),
                   "GOMAXPROCS": str(t.get("gomaxprocs", 2)), "GOGC": str(t.get("gogc", 400)), "VERIF_N": str(t.get("n", 0))})
         e.update({k: str(v) for k, v in t.get("env", {}).items()})
         if replay:
@@ -149,6 +167,7 @@ def merge(pid, spec, tier, seed, outdir, results, wall):
         if len(tot["samples"]) < 5:
             tot["samples"] += (d.get("samples") or [])[: 5 - len(tot["samples"])]
         tot["exhaustive"] = tot["exhaustive"] or bool(d.get("exhaustive"))
+        tot.setdefault("extra", {}).update(d.get("extra") or {})
     # rapid's own count of passed tests, to detect truncated runs
     passed = 0
     for f in glob.glob(os.path.join(outdir, "log-*.txt")):
@@ -172,8 +191,9 @@ def write_evidence(pid, spec, tier, seed, tot, wall, nviol, extra_notes):
         "notes": tot["notes"],
         "excluded_by_construction": tot["excluded"],
         "rapid_tests_passed": tot["rapid_passed"],
-        "exhaustive": bool(tot["exhaustive"]),
+        "exhaustive": bool(tot["exhaustive"]) or bool(spec.get("exhaustive", {}).get(tier) if isinstance(spec.get("exhaustive"), dict) else spec.get("exhaustive", False)),
     }
+    cov.update(tot.get("extra", {}))
     cov.update(extra_notes)
     ev = {"property_id": pid, "tier": tier, "seed": int(seed), "level": spec["level"], "coverage": cov,
           "assumptions": spec.get("assumptions", []), "wall_s": round(wall, 2), "violations": nviol,
@@ -235,7 +255,7 @@ def cmd_check(pid, tier, replay=None):
             if binary is None:
                 return 2
             for pre in ps.get("prebuild", []):
-                if not pre(scratch, repo(), env_base()):
+                if not PREBUILD[pre](scratch, repo(), env_base()):
                     print("HARNESS-ERROR: prebuild step failed")
                     return 2
             procs, outdir, deadline = run_shards(binary, ps, pid, tier, seed, scratch, replay, part_index=pi)
@@ -269,6 +289,11 @@ def cmd_check(pid, tier, replay=None):
             if f.get("property") == pid and f.get("status") == "open":
                 n = tot["known"].get(f["key"], 0)
                 print("KNOWN-FINDING: property=%s %s [key=%s observed=%d]" % (pid, f.get("what", ""), f["key"], n))
+        harness_v = [v for v in viols if v[1] == "harness"]
+        if harness_v:
+            for dst, kind, msg in harness_v:
+                print("HARNESS-ERROR: %s (%s)" % (msg.replace("\n", " ")[:800], dst))
+            return 2
         if viols:
             for dst, kind, msg in viols:
                 print("VIOLATION property=%s replay=%s" % (pid, dst))
